@@ -247,6 +247,14 @@ func (in *instr) pre(c *astutil.Cursor) bool {
 				return true
 			}
 		case *ast.SelectorExpr:
+			// time.AfterFunc(d, f): the callback must run in a goroutine the explorer knows.
+			if id, ok := f.X.(*ast.Ident); ok && id.Name == "time" && f.Sel.Name == "AfterFunc" && len(x.Args) == 2 {
+				lb := in.label(x)
+				x.Fun = sel("vsched", "AfterFunc")
+				x.Args = []ast.Expr{lb, x.Args[0], x.Args[1]}
+				in.stats["afterfunc"]++
+				return true
+			}
 			if len(x.Args) == 0 && f.Sel.Name == "Err" && isCtxName(f.X) {
 				x.Fun = call(sel("vsched", "Pre"), in.label(x), f)
 				in.stats["ctxerr"]++
